@@ -57,6 +57,10 @@ def fam_probe_loss(seed, n):
 def fam_evict(seed, n):
     return [scen.evict_script(seed, i) for i in range(n)]
 
+@family("sockpeer")
+def fam_sockpeer(seed, n):
+    return [scen.sockpeer_script(seed, i) for i in range(n)]
+
 @family("zwin")
 def fam_zwin(seed, n):
     return [scen.zwin_script(seed, i) for i in range(n)]
@@ -178,10 +182,11 @@ def c01(tier, seed):
         fam_peer_send(seed, sizes(tier, 48, 600))
     r.samples = [sample_of(s) for s in scripts[:2]]
     r.add_validated(core.run_and_validate("C01", scripts))
-    req_parts = component(r, "ooq", tier, seed, ["C01."]) + component(r, "segs", tier, seed, ["C01.", "Segs."])
+    req_parts = component(r, "ooq", tier, seed, ["C01."]) + component(r, "segs", tier, seed, ["C01.", "Segs."]) + \
+        component(r, "utx", tier, seed, ["C01."])
     r.assumptions = ["payload identity rests on the projection function harness/src/stream.rs (unit-tested by corrupting bytes)",
                      "single-threaded deterministic runtime: real-thread races between application calls and the connection task are not explored"]
-    return r.finish(rule_text=GENERAL_RULE + "; component checks: ooq (Reasm.tla), segs (Segments.tla)",
+    return r.finish(rule_text=GENERAL_RULE + "; component checks: ooq (Reasm.tla), segs (Segments.tla), utx (TxRing.tla)",
                     required_cov=["C01.SegContiguous", "C01.ReadIsPrefix", "C01.SegStable", "C01.NoGarbage"] + req_parts)
 
 std_check("C02", [("xfer_clean", 30, 400), ("xfer", 40, 800), ("peer_recv", 24, 300), ("zwin", 16, 200)] + KF,
@@ -190,7 +195,7 @@ std_check("C02", [("xfer_clean", 30, 400), ("xfer", 40, 800), ("peer_recv", 24, 
                        "application pauses and network delays stay below the configured inactivity timeout; the SYN itself is not dropped"])
 std_check("C03", [("close", 120, 2000), ("xfer", 20, 300), ("peer_recv", 32, 500)] + KF,
           ["C03.FlushHonest", "C03.EofOnlyAfterFin", "C03.SuccessMeansDelivered", "C03.AbortSurfaces", "C03.FinInSequence"],
-          parts=[("ooq", ["C03."])], model_spec=CLOSE_MODEL)
+          parts=[("ooq", ["C03."]), ("utx", ["C03."])], model_spec=CLOSE_MODEL)
 std_check("C04", [("peer_recv", 100, 1500), ("xfer", 30, 400)] + KF,
           ["C04.AckExact", "C04.AckMonotone", "C04.SackExact", "C04.WindowHonest", "C04.WithinBuffer", "C04.ConsumeExact",
            "C04.OutOfOrderIsAhead", "C04.DuplicateIsOld", "C04.AlreadyPresentIsHeld"], model_spec=DATA_MODEL,
@@ -205,12 +210,12 @@ std_check("C07", [("peer_recv", 120, 2000), ("xfer_clean", 20, 200)],
           ["C07.NoSpontaneousAck", "C07.DelayedAck", "C07.ImmediateAck"])
 std_check("C08", [("close", 100, 1500), ("many", 40, 600)],
           ["C08.SlotFreed", "C08.EndsInTime"], model_spec=CLOSE_MODEL + SOCK_MODEL)
-std_check("C12", [("many", 80, 1200), ("backlog", 6, 60), ("evict", 16, 64)],
+std_check("C12", [("many", 80, 1200), ("backlog", 6, 60), ("evict", 16, 64), ("sockpeer", 24, 300)],
           ["C12.KeyUnique", "C12.LimitRespected", "C12.TableAgrees", "C12.RouteAgrees", "C12.DeliverToNamed", "C12.NoEviction",
            "C12.DeadCleanup"],
           extra_prefixes=["C01."], model_spec=SOCK_MODEL,
           assumptions=["per-connection integrity on simultaneous connections is judged by the C01 rules on every connection (distinct streams per connection)"])
-std_check("C13", [("many", 80, 1200), ("backlog", 10, 100)],
+std_check("C13", [("many", 80, 1200), ("backlog", 10, 100), ("sockpeer", 24, 300)],
           ["C13.AcceptFifo", "C13.BacklogBound", "C13.RefusedOnlyWhenFull", "C13.ExcessRefused", "C13.ResetMatches",
            "C13.AcceptReturnsMatched", "C13.AcceptCallOrder", "C13.PairOnce"], model_spec=SOCK_MODEL)
 std_check("C14", [("mtu", 60, 1000), ("xfer", 20, 200), ("hostile", 20, 200)],
@@ -219,11 +224,13 @@ std_check("C14", [("mtu", 60, 1000), ("xfer", 20, 200), ("hostile", 20, 200)],
 std_check("C17", [("close", 100, 1500), ("peer_send", 40, 500), ("peer_recv", 40, 500), ("hostile", 20, 300),
                   ("walk", 100, 1392)],
           ["C17.FinSeq", "C17.FinAfterData", "C17.NothingAfterFin", "C17.PeerFinInOrder", "C17.FinAnswered",
-           "C17.ResetAborts", "C17.SynAckForm", "C17.SynAckRepeats", "C17.Transition"], model_spec=CLOSE_MODEL)
-std_check("C18", [("peer_send", 120, 2000), ("xfer", 30, 300)],
-          ["C18.NagleHold", "C18.NoHoldWhenOff", "C18.NagleDrain"])
+           "C17.ResetAborts", "C17.SynAckForm", "C17.SynAckRepeats", "C17.Transition", "C17.HandshakeGate"], model_spec=CLOSE_MODEL)
+std_check("C18", [("peer_send", 120, 2000), ("xfer", 30, 300), ("close", 48, 600)],
+          ["C18.NagleHold", "C18.NoHoldWhenOff", "C18.NagleDrain"],
+          # "... or sent when the pipe drains": a held tail may not be forgotten when the application closes
+          extra_prefixes=["C17.FinAfterData"])
 std_check("C19", [("peer_send", 100, 1500), ("xfer", 30, 300)],
-          ["C19.TxBounded", "C19.WriteNotStuck"], model_spec=DATA_MODEL)
+          ["C19.TxBounded", "C19.WriteNotStuck"], model_spec=DATA_MODEL, parts=[("utx", ["C19.", "TxRing."])])
 
 @check("C10")
 def c10(tier, seed):
